@@ -213,7 +213,7 @@ package dagsync
 //@   pure
 
 //@ func (*segmentedSync).reset
-//@   property C01
+//@   property C01 C04
 //@   requires ss != nil
 //@   modifies ss.nextSyncCid, ss.err
 //@   ensures ss.nextSyncCid == nil && ss.err == nil
@@ -613,9 +613,3 @@ package dagsync
 //@   requires ss != nil
 //@   modifies ss.err
 //@   ensures ss.err == err
-
-//@ func (*segmentedSync).reset
-//@   property C01 C04
-//@   requires ss != nil
-//@   modifies ss.nextSyncCid, ss.err
-//@   ensures ss.nextSyncCid == nil && ss.err == nil
